@@ -38,7 +38,7 @@ ASSUMPTIONS = [
 ]
 BUDGET = {
     "quick": {"shards": 16, "examples": 400, "wall": 110, "filter_examples": 10, "cpp_examples": 2},
-    "thorough": {"shards": 16, "examples": 40000, "wall": 1200, "filter_examples": 300, "cpp_examples": 6},
+    "thorough": {"shards": 16, "examples": 400000, "wall": 900, "filter_examples": 3000, "cpp_examples": 60},
 }
 EPS = 2.0**-52
 TAUS = [0.2, 0.9, 0.99, 1 - 1e-6, 1 + 1e-6, 1.01, 1.1, 5.0]
